@@ -85,7 +85,7 @@ PROPS["C11"] = {
 PROPS["C14"] = {
     "technique": "property-based testing with fault injection (rapid): generated payloads x frame layouts x single-frame faults, round-trip oracle on three reassembly paths",
     "level_text": "Payloads (0..20 KiB quick, 200 KiB thorough) are cut into 1..60 frames laid out as in the schema comment (fan-out 1..10) or as arbitrary trees with permuted next lists and permuted storage order, with CRC64/FNV/no checksum; one fault per faulty case (missing frame, dropped link, duplicated link, bit flip, frame of another payload, two frames swapped). Intact payloads must reassemble byte-identically through tooling.LoadDataFromDataFrames, getTransactionAndMetaFromNode and accum.ObjectsToTransactionsAndMetadata; faulty ones must give an error or exactly the original bytes. Exploration level.",
-    "level_note": "Domain: a payload without a recorded frame count is a single frame (as the code documents); faults are injected only into payloads carrying checksum and frame count, on non-first frames. Trusted: reference encoder, zstd, protobuf.",
+    "level_note": "Domain: a payload without a recorded frame count is a single frame (as the code documents); faults are injected only into payloads carrying checksum and frame count (any frame, including the first and the only one). Trusted: reference encoder, zstd, protobuf.",
     "rule": ("rapid draws payload seed/size, frame count, layout (schema fan-out or random tree), child order, checksum kind, fault kind and target frames; non-trivial = >=3 frames and >=2 levels of next links; distinct by case hash"),
     "assumptions": ["CRC64/FNV collisions on the injected faults are negligible (2^-64)"],
     "units": [
